@@ -222,7 +222,7 @@ pub fn check(rep: &Reporter) {
 	let max_len = 3;
 	let max_script = if thorough { 4 } else { 3 };
 	rep.set_rule(&format!(
-		"params texts = arrays of 0..{max_len} elements out of {} element texts (numbers incl. out-of-range, strings containing brackets/commas/escapes, nested and blank containers) with whitespace from {{none, space, tab-newline, CR-LF}} at every token gap (all combinations for ≤1 element; for 2 elements at most 2 (thorough 4) non-empty gaps; for 3 elements at most {} non-empty gaps), plus objects/scalars/absent; read scripts = all sequences of length 1..{max_script} over {{next<Value>, next<u64>, next<String>, optional_next<Value>, optional_next<u64>}}; every (text, script) pair is judged against serde_json's parse of the element texts; distinct = (text, script), all non-trivial.",
+		"params texts = arrays of 0..{max_len} elements out of {} element texts (numbers incl. out-of-range, strings containing brackets/commas/escapes, nested and blank containers) with whitespace from {{none, space, tab-newline, CR-LF}} at every token gap (all combinations for ≤1 element; for 2 elements at most 2 (thorough 4) non-empty gaps; for 3 elements at most {} non-empty gaps), plus objects/scalars/absent, plus strings of 20..70 (thorough 1..140) two-, three- and four-byte characters behind 0..3 ASCII characters as only element / second element / non-array params / object member; read scripts = all sequences of length 1..{max_script} over {{next<Value>, next<u64>, next<String>, optional_next<Value>, optional_next<u64>}}; every (text, script) pair is judged against serde_json's parse of the element texts; distinct = (text, script), all non-trivial.",
 		ELEMS.len(),
 		if thorough { 3 } else { 1 }
 	));
@@ -267,6 +267,23 @@ pub fn check(rep: &Reporter) {
 	for t in ["{}", "{\"a\":1}", " {\"a\":[1,2]} ", "5", "\"s\"", "null", "true", "-1.5"] {
 		cases.push((t.to_string(), None));
 	}
+	// long non-ASCII strings (error texts that quote the offending value get long, and every byte offset up to ~280 falls
+	// inside a multi-byte character for some of them): as the only element, after a good element, and as non-array params
+	let mut long_texts = 0usize;
+	for prefix in ["", "a", "ab", "abc"] {
+		for ch in ['é', '€', '😀'] {
+			for m in if thorough { 1..=140usize } else { 20..=70usize } {
+				let sv = format!("\"{prefix}{}\"", ch.to_string().repeat(m));
+				let el = serde_json::from_str::<Value>(&sv).ok();
+				cases.push((format!("[{sv}]"), Some(vec![el.clone()])));
+				cases.push((format!("[1, {sv}]"), Some(vec![Some(json!(1)), el.clone()])));
+				cases.push((sv.clone(), None));
+				cases.push((format!("{{\"k\":{sv}}}"), None));
+				long_texts += 4;
+			}
+		}
+	}
+	rep.extra("long_non_ascii_texts", json!(long_texts));
 	rep.extra("params_texts", json!(cases.len()));
 	let nscripts = seq_count(OPS.len(), max_script) - 1;
 	rep.extra("read_scripts", json!(nscripts));
